@@ -782,10 +782,20 @@ evaluate() const {
       if (r1._type == RT_real || r2._type == RT_real) {
         return Result(r1.as_real() / r2.as_real());
       } else {
+        // Division by zero and INT_MIN / -1 are undefined (and trap on most
+        // hardware), so they are not constant expressions.
+        if (r2.as_integer() == 0 ||
+            (r2.as_integer() == -1 && r1.as_integer() == INT_MIN)) {
+          return Result();
+        }
         return Result(r1.as_integer() / r2.as_integer());
       }
 
     case '%':
+      if (r2.as_integer() == 0 ||
+          (r2.as_integer() == -1 && r1.as_integer() == INT_MIN)) {
+        return Result();
+      }
       return Result(r1.as_integer() % r2.as_integer());
 
     case '+':
